@@ -48,6 +48,9 @@ func Campaign(o hx.RunOpts, prop string, rule string) error {
 	return s.Finish()
 }
 
+// EmitAndJudge: one run of the commit campaign replayed on Model P and judged for one property
+func EmitAndJudge(ctx context.Context, s *hx.Session, ob *Obs, prop, header string) { emitAndJudge(ctx, s, ob, prop, header) }
+
 func emitAndJudge(ctx context.Context, s *hx.Session, ob *Obs, prop, header string) {
 	if ob.Panic != "" && (ob.Res == nil || ob.Res.OpenErr != nil) {
 		s.BeginCase(header + " PANIC")
